@@ -104,45 +104,84 @@ def literalTy : Expr → Option LTy
 
 def commandName : Bytes := b!"command"
 
+/-- `variable_read_class` (fix D-03e): a read of a variable of an enclosing function may come
+before that variable's `make` (hoisted call) and is then an `Undefined variable` error. -/
+def readClass (capt : Nat → Bool) : Option Nat → ExprClass
+  | some id => if capt id then .pureMayTrap else .pureNoTrap
+  | none => .pureNoTrap
+
+def segsClass (capt : Nat → Bool) : List Seg → ExprClass
+  | [] => .pureNoTrap
+  | .lit _ :: ss => segsClass capt ss
+  | .var _ b :: ss => (readClass capt b).join (segsClass capt ss)
+
 mutual
-  /-- `Resolver::classify_expr` (fixed): a user call contributes only its arguments here; the
-  callee's class is joined per statement through the summaries (`effClass`). -/
-  def classify : Expr → ExprClass
-    | .num _ _ | .bool _ _ | .null _ | .var _ _ _ | .str _ _ => .pureNoTrap
-    | .array es _ => classifyList es
-    | .index a i _ _ => ((classify a).join (classify i)).join .pureMayTrap
+  /-- `Resolver::classify_expr` (fixed; `capt id` = local `id` belongs to an enclosing function):
+  a user call contributes only its arguments here; the callee's class is joined per statement
+  through the summaries (`effClass`). -/
+  def classify (capt : Nat → Bool) : Expr → ExprClass
+    | .num _ _ | .bool _ _ | .null _ => .pureNoTrap
+    | .var _ b _ => readClass capt b
+    | .str (.static _) _ => .pureNoTrap
+    | .str (.interp segs) _ => segsClass capt segs
+    | .array es _ => classifyList capt es
+    | .index a i _ _ => ((classify capt a).join (classify capt i)).join .pureMayTrap
     | .binary op l r s =>
-        let c := (classify l).join (classify r)
+        let c := (classify capt l).join (classify capt r)
         if op == .divide || op == .mod || (literalTy (.binary op l r s)).isNone then c.join .pureMayTrap else c
     | .unary op x s =>
-        let c := classify x
+        let c := classify capt x
         if (literalTy (.unary op x s)).isNone then c.join .pureMayTrap else c
-    | .member o _ _ _ => (classify o).join .pureMayTrap
+    | .member o _ _ _ => (classify capt o).join .pureMayTrap
     | .call (.var name _ _) args fn _ =>
-        let c := classifyList args
+        let c := classifyList capt args
         match globalClass name with
         | some gc =>
             let c := c.join gc
             if name == commandName && (args.head?.bind literalTy) != some .str then c.join .pureMayTrap else c
         | none => if fn.isSome then c else c.join .impure
     | .call (.member o field _ _) args _ _ =>
-        let c := ((classifyList args).join (classify o)).join .pureMayTrap
+        let c := ((classifyList capt args).join (classify capt o)).join .pureMayTrap
         match memberClass field with
         | some mc => c.join mc
         | none => c.join .impure
-    | .call _ args _ _ => (classifyList args).join .impure
-  def classifyList : List Expr → ExprClass
+    | .call _ args _ _ => (classifyList capt args).join .impure
+  def classifyList (capt : Nat → Bool) : List Expr → ExprClass
     | [] => .pureNoTrap
-    | e :: es => (classify e).join (classifyList es)
+    | e :: es => (classify capt e).join (classifyList capt es)
 end
 
 /-- The class `check_stmt` records for a statement (before callee summaries are joined). -/
-def stmtClass : Stmt → ExprClass
-  | .assign _ _ e _ _ _ | .assignExisting _ _ e _ _ _ | .expr e _ _ => classify e
+def stmtClass (capt : Nat → Bool) : Stmt → ExprClass
+  | .assign _ _ e _ _ _ | .assignExisting _ _ e _ _ _ | .expr e _ _ => classify capt e
   | .assignIndex _ _ _ _ | .fnDef _ _ _ _ _ _ _ => .impure
-  | .ifS c _ _ _ _ | .loop c _ _ _ => classify c
-  | .ret (some e) _ _ => classify e
+  | .ifS c _ _ _ _ | .loop c _ _ _ => classify capt c
+  | .ret (some e) _ _ => classify capt e
   | .ret none _ _ | .brk _ _ | .cont _ _ | .block _ _ _ => .pureNoTrap
+
+mutual
+  /-- (statement id, class) of every statement; `cur` = the function whose body is being walked,
+  `lo` = owner of a local. -/
+  def clsStmt (lo : Nat → Option Nat) (cur : Nat) : Stmt → List (Nat × ExprClass)
+    | .fnDef n ns ps (.mk body bs) f sid sp =>
+        (match sid with | some i => [(i, stmtClass (fun l => lo l != some cur) (.fnDef n ns ps (.mk body bs) f sid sp))] | none => []) ++
+        clsStmts lo (match f with | some g => g | none => cur) body
+    | .ifS c (.mk t ts) none sid sp =>
+        (match sid with | some i => [(i, stmtClass (fun l => lo l != some cur) (.ifS c (.mk t ts) none sid sp))] | none => []) ++
+        clsStmts lo cur t
+    | .ifS c (.mk t ts) (some (.mk e es)) sid sp =>
+        (match sid with | some i => [(i, stmtClass (fun l => lo l != some cur) (.ifS c (.mk t ts) (some (.mk e es)) sid sp))] | none => []) ++
+        clsStmts lo cur t ++ clsStmts lo cur e
+    | .loop c (.mk b bs) sid sp =>
+        (match sid with | some i => [(i, stmtClass (fun l => lo l != some cur) (.loop c (.mk b bs) sid sp))] | none => []) ++
+        clsStmts lo cur b
+    | .block (.mk b bs) sid sp =>
+        (match sid with | some i => [(i, ExprClass.pureNoTrap)] | none => []) ++ clsStmts lo cur b
+    | s => match s.sid with | some i => [(i, stmtClass (fun l => lo l != some cur) s)] | none => []
+  def clsStmts (lo : Nat → Option Nat) (cur : Nat) : List Stmt → List (Nat × ExprClass)
+    | [] => []
+    | s :: ss => clsStmt lo cur s ++ clsStmts lo cur ss
+end
 
 /-! ### Statement table -/
 
@@ -157,7 +196,6 @@ structure Row where
   span : Span
   /-- `var_span` of an assignment / `name_span` of a function definition -/
   auxSpan : Span
-  cls : ExprClass
   /-- reachable inside its own function (reachability.rs `reachable_statement_mask`) -/
   live : Bool
   /-- the enclosing statement (or, for a function body's statements, the definition) is reachable -/
@@ -192,7 +230,7 @@ end
 
 def mkRow (pl live : Bool) (s : Stmt) : List Row :=
   match s.sid with
-  | some i => [{ sid := i, kind := stmtKind s, span := s.span, auxSpan := stmtAux s, cls := stmtClass s,
+  | some i => [{ sid := i, kind := stmtKind s, span := s.span, auxSpan := stmtAux s,
                  live := live, parentLive := pl }]
   | none => []
 
@@ -232,6 +270,14 @@ def unreachable (root : Block) : List Nat :=
 structure Ctx where
   facts : Facts
   rows : List Row
+  /-- (statement id, class recorded by `check_stmt`) -/
+  cls : List (Nat × ExprClass)
+
+/-- Class of a statement; an id that is not in the table counts as `Impure`. -/
+def Ctx.clsOf (c : Ctx) (sid : Nat) : ExprClass :=
+  match c.cls.find? (fun p => p.1 == sid) with
+  | some p => p.2
+  | none => .impure
 
 def Ctx.row? (c : Ctx) (sid : Nat) : Option Row := c.rows.find? (fun r => r.sid == sid)
 def Ctx.live (c : Ctx) (sid : Nat) : Bool := match c.row? sid with | some r => r.live | none => false
@@ -287,7 +333,7 @@ def Ctx.transWrites (c : Ctx) (f : Nat) : List Nat :=
 /-- `compute_body_classes`: join of the statement classes of the body; `Impure` when the body
 stores into a captured variable (D-03c). -/
 def Ctx.bodyClass (c : Ctx) (f : Nat) : ExprClass :=
-  let j := c.rows.foldl (fun acc r => if c.fnOf r.sid == f then acc.join r.cls else acc) ExprClass.pureNoTrap
+  let j := c.rows.foldl (fun acc r => if c.fnOf r.sid == f then acc.join (c.clsOf r.sid) else acc) ExprClass.pureNoTrap
   if (c.direct f).captureWrites.isEmpty then j else .impure
 
 def Ctx.transClass (c : Ctx) (f : Nat) : ExprClass :=
@@ -295,8 +341,7 @@ def Ctx.transClass (c : Ctx) (f : Nat) : ExprClass :=
 
 /-- opt.rs `stmt_effective_class`. -/
 def Ctx.effClass (c : Ctx) (sid : Nat) : ExprClass :=
-  let own := match c.row? sid with | some r => r.cls | none => .impure
-  (c.callees sid).foldl (fun acc g => acc.join (c.transClass g)) own
+  (c.callees sid).foldl (fun acc g => acc.join (c.transClass g)) (c.clsOf sid)
 
 /-! ### Call-graph reachability (diagnostics.rs `compute_function_reachability`) -/
 
@@ -310,6 +355,12 @@ def Ctx.defReachable (c : Ctx) (g : Nat) : Bool :=
   match (c.facts.functions[g]?).bind (·.defStmt) with
   | some s => c.live s && c.bodyReachable.contains (c.fnOf s)
   | none => false
+
+/-- The body-reachable set is closed under the calls of reachable statements of body-reachable
+functions (the fixpoint iteration ran long enough).  Part of `wf`; hypothesis of T3. -/
+def Ctx.brClosed (c : Ctx) : Bool :=
+  let br := c.bodyReachable
+  c.rows.all fun r => !(r.live && br.contains (c.fnOf r.sid)) || (c.callees r.sid).all (fun g => br.contains g)
 
 /-- `unused_functions`: (definition statement, function id). -/
 def Ctx.unusedFns (c : Ctx) : List (Nat × Nat) :=
@@ -530,7 +581,10 @@ structure Result where
   cls : List ExprClass
 deriving Repr
 
-def mkCtx (root : Block) (facts : Facts) : Ctx := { facts := facts, rows := rows root }
+def ownerFn (facts : Facts) (l : Nat) : Option Nat := (facts.locals[l]?).map (·.owner)
+
+def mkCtx (root : Block) (facts : Facts) : Ctx :=
+  { facts := facts, rows := rows root, cls := clsStmts (ownerFn facts) 0 root.stmts }
 
 /-- Statements the unused-assignment verdicts make removable. -/
 def Ctx.removableAsg (c : Ctx) (ua : List Nat) : List Nat :=
@@ -568,8 +622,7 @@ def analyse (root : Block) (facts : Facts) : Result :=
     unusedFn := uf
     plan := { stmts := uni unreach (uni (c.removableAsg ua) (c.removableDecls uv)), fns := uf.map (·.2) }
     warns := (w1 ++ w2 ++ w3 ++ w4).foldr insertWarn []
-    cls := (List.range facts.stmtEffects.length).map fun s =>
-      match c.row? s with | some r => r.cls | none => .impure }
+    cls := (List.range facts.stmtEffects.length).map c.clsOf }
 
 /-- The plan of the model (`build_optimization_plan`). -/
 def planModel (root : Block) (facts : Facts) : Plan := (analyse root facts).plan
